@@ -12,7 +12,7 @@ from ..common.outcome import Outcome, require
 
 ID = "C10"
 RULE = (
-    "a full data set (<= 14 rows quick / 30 thorough, 1..4 dims) in the drawn metric's domain (all 47 identifiers, asymmetric and signed ones included); pre_compute_distance(data, file) with "
+    "a full data set (<= 14 rows quick / 30 thorough, 1..4 dims, float64 or float32) in the drawn metric's domain (all 47 identifiers, asymmetric and signed ones included); pre_compute_distance(data, file) with "
     "extension .txt or .csv; a drawn split into train / test (/ unlabeled) index arrays in arbitrary order (semi-supervised: unlabeled rows directly follow n_labeled in the file, the only layout "
     "the API expresses); models: supervised, semi-supervised, unsupervised (drawn k range). Oracle: model A = Model(distance, pre_computed_distance=file) driven by index arrays, model B = Model(distance) on the features: "
     "every node field, conquest order, best_k, n_clusters, predictions and clusters must be equal exactly; get_distances() of B == metric on every ordered pair (min-max rescaled when normalize=True). "
@@ -20,8 +20,8 @@ RULE = (
 )
 ASSUMPTIONS = ["np.savetxt's default 18-decimal format round-trips float64 exactly, so exact equality is demanded"]
 BUDGET = {
-    "quick": {"examples": 1200, "shards": 8, "min_nontrivial": 200},
-    "thorough": {"examples": 16000, "shards": 16, "min_nontrivial": 3000, "max_wall": 3000},
+    "quick": {"examples": 3200, "shards": 16, "min_nontrivial": 200},
+    "thorough": {"examples": 64000, "shards": 16, "min_nontrivial": 3000, "max_wall": 3000},
 }
 
 
@@ -34,7 +34,7 @@ def _case(draw, nall_max):
     dim = draw(st.integers(1, 4))
     nall = draw(st.integers(5, nall_max))
     data = draw(gen.points(nall, dim, kind))
-    case = {"metric": name, "pkind": kind, "model": model, "ext": ext, "data": data}
+    case = {"metric": name, "pkind": kind, "model": model, "ext": ext, "data": data, "dtype": draw(st.sampled_from(["float64", "float64", "float64", "float32"]))}
     rows = list(range(nall))
     if model == "semi":
         nl = draw(st.integers(2, max(2, (nall - 1) // 2)))
@@ -80,8 +80,11 @@ def check_case(case):
     import opfython.math.general as g
 
     name = case["metric"]
-    data = np.array(case["data"], dtype=float)
-    ref = models.eval_matrix(name, case["data"])
+    dt = np.float32 if case.get("dtype") == "float32" else np.float64
+    data = np.array(case["data"], dtype=dt)
+    fn = models.dist_fn(name)
+    # the metric evaluated from outside on the caller's rows, in the caller's dtype
+    ref = [[float(libcall(fn, data[i].copy(), data[j].copy())) for j in range(len(data))] for i in range(len(data))]
     if not all(math.isfinite(v) for row in ref for v in row):
         return Outcome.discard("non_finite_metric_value")
     It, Iq = case["I_train"], case["I_test"]
@@ -137,9 +140,20 @@ def check_case(case):
             for j in range(nodes):
                 e = (float(G[i][j]) - lo) / (hi - lo)
                 require(abs(float(N[i][j]) - e) <= 1e-12 * (1 + abs(e)), "get_distances:min_max_normalised", lambda: "entry (%d,%d) %r expected %r" % (i, j, float(N[i][j]), e))
+    # ... and a model that is re-fitted on another subset of the same size reports the NEW training set's matrix
+    if len(It) >= 2 and case["model"] in ("sup", "unsup"):
+        It2 = It[1:] + It[:1]
+        if case["model"] == "unsup":
+            libcall(B.fit, data[It2].copy(), Y.copy())
+        else:
+            libcall(B.fit, data[It2].copy(), Y.copy())
+        G2 = np.asarray(libcall(B.get_distances))
+        for i in range(len(It2)):
+            for j in range(len(It2)):
+                require(float(G2[i][j]) == ref[It2[i]][It2[j]], "get_distances:after_refit", lambda: "after re-fitting on rows %r entry (%d,%d) is %r, metric gives %r" % (It2, i, j, float(G2[i][j]), ref[It2[i]][It2[j]]))
     offd = {ref[i][j] for i in It for j in It if i != j}
     nontriv = It != list(range(len(It))) and len(offd) >= 3
-    cl = ["model_" + case["model"], "ext_" + case["ext"], "m:" + name]
+    cl = ["model_" + case["model"], "ext_" + case["ext"], "m:" + name, "dtype_" + case.get("dtype", "float64")]
     if not M.symmetric(name):
         cl.append("asym")
     return Outcome.ok(nontrivial=nontriv, classes=cl)
